@@ -616,7 +616,9 @@ func randomSequences(r *vk.Run) {
 		gen := vk.GenOpts{Density: 30, MaxDepth: 1, MaxList: 2}
 		init := sm.State{}
 		if isValue {
-			init[""] = sm.Item{Msg: vk.GenMessage(rng, tc.info.Zero, gen)}
+			if !rng.Chance(1, 4) { // a quarter of the Values start with nothing stored
+				init[""] = sm.Item{Msg: vk.GenMessage(rng, tc.info.Zero, gen)}
+			}
 		} else if rng.Bool() {
 			init["a"] = sm.Item{Msg: vk.GenMessage(rng, tc.info.Zero, gen)}
 		}
@@ -717,13 +719,20 @@ func randomSequences(r *vk.Run) {
 					o.AllowMissing = rng.Chance(1, 3)
 				}
 				if rng.Chance(1, 5) {
-					if cur != nil && rng.Chance(2, 3) {
+					switch {
+					case cur != nil && rng.Chance(2, 3):
 						o.ExpectValue = proto.Clone(cur)
-					} else {
+					case rng.Chance(1, 3):
+						// the empty message: what a register holding nothing does NOT hold (and what a created item starts from)
+						o.ExpectValue = tc.info.Zero.ProtoReflect().New().Interface()
+					default:
 						o.ExpectValue = vk.GenMessage(rng, tc.info.Zero, gen)
 					}
 				}
 				o.ExpectCheck = rng.Chance(1, 6)
+				if isValue && cur == nil {
+					o.ExpectCheck = false // what a check is shown for "nothing stored" is not specified
+				}
 				o.PlainCheckErr = o.ExpectCheck && rng.Chance(1, 3)
 				if rng.Chance(1, 5) {
 					o.WriteTime = ptime(int64(s))
